@@ -656,7 +656,9 @@ def _vtext(v):
         return f"<{k}{np.dtype(v.dtype).itemsize * 8 if k != 'bool' else ''}{list(v.shape)}>".replace(" ", "")
     if isinstance(v, type) or hasattr(v, "dtype") and hasattr(v, "__name__"):
         return getattr(v, "__name__", repr(v))
-    return repr(v)
+    if callable(v) and hasattr(v, "__name__"):
+        return f"<function {v.__name__}>"
+    return re.sub(r" at 0x[0-9a-f]+", "", repr(v))
 
 
 def boundary_values(p, first):
